@@ -417,6 +417,8 @@ func genC12(r *hx.Rng, tier string, w io.Writer) {
 	for _, g := range goldenOps() {
 		fmt.Fprintln(w, g)
 	}
+	// two messages decoded into ONE receiver, a struct copy of the first result kept (reuse.go): fixed pairs
+	reuseFixed(w)
 	// the known finding C12/hash/data-hash-ignores-marshal-error, deliberately: a chain id that is not UTF-8
 	{
 		d := types.Data{Metadata: &types.Metadata{ChainID: "\xff", Height: 5, Time: 7, LastDataHash: []byte{9}}, Txs: types.Txs{types.Tx("a")}}
@@ -433,6 +435,7 @@ func genC12(r *hx.Rng, tier string, w io.Writer) {
 	var priv crypto.PrivKey
 	var pub, foreign crypto.PubKey
 	var addr []byte
+	var prevSrcs map[string][]byte
 	for i := 0; i < n; i++ {
 		if i%50 == 0 {
 			fmt.Fprintln(w, "recheck")
@@ -553,6 +556,11 @@ func genC12(r *hx.Rng, tier string, w io.Writer) {
 		// decoders: valid bytes, mutated bytes, wrong message type
 		srcs := map[string][]byte{"header": hb, "meta": mb, "data": db, "sh": shb, "sd": sdb, "state": stb}
 		ks := []string{"header", "meta", "data", "sh", "sd", "state"}
+		// this value and the previous one of the scenario decoded into one receiver (no random draws: reuse.go)
+		if i%50 == 12 && prevSrcs != nil {
+			genReusePair(w, prevSrcs, srcs, i/50)
+		}
+		prevSrcs = srcs
 		for _, dec := range ks {
 			in := srcs[dec]
 			switch r.Intn(6) {
@@ -886,6 +894,8 @@ func execOp(c *hx.Ctx, o hx.Op) string {
 		case "dec-state":
 			b := o.Bytes("b")
 			return guard(c, "dec-state", func() string { return decState(c, b) })
+		case "reuse":
+			return guard(c, "reuse", func() string { return reuseOp(c, o) })
 		case "cache-sh", "cache-data":
 			return guard(c, o.Verb, func() string { return cacheRoundTrip(c, o) })
 		case "cache-load":
